@@ -505,3 +505,14 @@ package lfs
 //@   ensures p.passthrough ==> result == filename
 //@   ensures !p.passthrough && gocall("path/filepath.Rel", 1, p.currDir, scat(scat(p.repoDir, "/"), filename)) == nil ==> result == gocall("path/filepath.ToSlash", 0, gocall("path/filepath.Rel", 0, p.currDir, scat(scat(p.repoDir, "/"), filename)))
 //@   ensures !p.passthrough && gocall("path/filepath.Rel", 1, p.currDir, scat(scat(p.repoDir, "/"), filename)) != nil ==> result == scat(scat(p.repoDir, "/"), filename)
+
+// C13 / C04 / C03: the blob scanner behind fsck, fetch and push treats *every*
+// blob below the 1024-byte cutoff as a pointer candidate - whatever its size -
+// and only blobs at or above it as ordinary content.  (Frame assumed; these two
+// clauses are checked against the body.)
+//@ func (*PointerScanner).next
+//@   assumed
+//@   props C13 C04 C03
+//@   modifies heap
+//@   at call lfs.DecodePointer:1 assert size < blobSizeCutoff
+//@   at call fmt.Sprintf:2 assert size >= blobSizeCutoff
